@@ -5,7 +5,9 @@ set -u
 d=$1; shift
 wt=/tmp/seedwt-$$
 git -C /repo worktree add -q $wt HEAD || exit 2
-( cd $wt && git apply "$d/patch.diff" ) || { echo "patch does not apply"; git -C /repo worktree remove --force $wt; exit 2; }
+# hook files that are not committed yet in /repo
+( cd /repo && git ls-files --others --exclude-standard | grep -E '(^|/)verif_[a-z0-9_]*\.go$' | while read f; do mkdir -p "$wt/$(dirname $f)"; cp "$f" "$wt/$f"; done )
+( cd $wt && git apply "${PATCH:-$d/patch.diff}" ) || { echo "patch does not apply"; git -C /repo worktree remove --force $wt; exit 2; }
 ( cd $wt && GOFLAGS=-mod=mod go build ./... ) || echo "WARNING: patched tree does not build"
 cd "$(dirname "$0")/.."
 for id in "$@"; do
